@@ -22,7 +22,7 @@ def _css_oracle_only(ctx):
         impl = su.impl_expand_many(cases)
         c07_css.check_oracle(ctx, cases, impl, tag)
     ctx.cov['css_half'] = 'implementation oracle only: coq/props/C07Css.v not present in this tree'
-    ctx.cov['rule'] = ctx.cov.get('rule', '') + (' || css: the generated cases of harness/c07_css.py (short strings, valid abbreviations, '
+    ctx.cov['rule'] = ctx.cov.get('rule', '') + (' || css: the generated cases of harness/c07_css.py (short strings, valid abbreviations, value grammar, '
                                                 'mutations, random option sets) through the implementation oracle only')
 
 
